@@ -155,7 +155,7 @@ func scenario(sc scen) *vexp.Scenario {
 				for j := 0; j < sc.Bg; j++ {
 					j := j
 					vrt.GoNamed(fmt.Sprintf("bg%d", j), func() {
-						to := time.Hour
+						to := 100 * time.Hour // never fires (see vctx.WithTimeout)
 						if sc.ShortTO {
 							to = time.Millisecond
 						}
